@@ -78,7 +78,7 @@ Definition decode_int (k : ikind) (g : bytes) : Z :=
 (* ---------------------------------------------------------------- strings *)
 Fixpoint trim_right_nul_rev (r : bytes) : bytes :=
   match r with 0%N :: t => trim_right_nul_rev t | _ => r end.
-Definition trim_right_nul (b : bytes) : bytes := rev (trim_right_nul_rev (rev b)).
+Definition trim_right_nul (b : bytes) : bytes := rev' (trim_right_nul_rev (rev' b)).
 
 Definition siun_fix (b : bytes) : bytes :=
   flat_map (fun c => if (c =? 176)%N || (c =? 178)%N || (c =? 179)%N || (c =? 181)%N
